@@ -228,7 +228,7 @@ func init() {
 	}})
 
 	register(&Check{ID: "C20", Title: "declarations for unmentioned classes do not matter", Replay: cfgReplay("cfg-extra"), Run: func(c *CheckCtx) {
-		c.rule = "pairs (configuration, configuration + extra files declaring classes the program never mentions): extra classes in frame Builtin with fresh names, namespaced classes in other frames (Frame::Name written as frame+class and as class \"Frame::Name\"), classes in another frame that reuse the short name of a user class of the program (also of a superclass the program references before defining it), and classes in another frame that reuse the short name of a core class (String, Array, ...) and redeclare its methods with other signatures (loaded before or after the core file); programs: corpus programs, generated programs with user classes, forward-superclass programs, calls of the redeclared core methods on literals; modes plain and -i. Oracle: byte-identical output. distinct_nontrivial = distinct (pair, program, mode) with non-empty output"
+		c.rule = "pairs (configuration, configuration + extra files declaring classes the program never mentions): extra classes in frame Builtin with fresh names, namespaced classes in other frames (Frame::Name written as frame+class and as class \"Frame::Name\"), classes in another frame that reuse the short name of a user class or module of the program (the user class or its including class also inside a namespace, naming its sibling superclass or a top-level module by the short name) (also of a superclass the program references before defining it), and classes in another frame that reuse the short name of a core class (String, Array, ...) and redeclare its methods with other signatures (loaded before or after the core file); programs: corpus programs, generated programs with user classes, forward-superclass programs, calls of the redeclared core methods on literals; modes plain and -i. Oracle: byte-identical output. distinct_nontrivial = distinct (pair, program, mode) with non-empty output"
 		c.assumptions = []string{"extra class names are checked not to occur in the program text (except the deliberately reused short names, which live in another frame)"}
 		r := c.RNG.Sub(20)
 		items := Corpus()
@@ -314,11 +314,22 @@ func init() {
 		// user modules (included, extended, called) whose name a configured class of
 		// another frame also has. (A CONSTANT of that name is not covered by the
 		// property: the program then does mention the name, and not as a class.)
-		for k := 0; k < c.N(16, 200); k++ {
+		for k := 0; k < c.N(36, 300); k++ {
 			name := Pick(r, []string{"Helper", "Util", "Greeter", "Tools"})
 			var sb strings.Builder
 			feat := "module-include+reused-short-name"
-			switch r.Intn(3) {
+			switch r.Intn(6) {
+			case 3:
+				// the including class lives in a namespace, the module at top level
+				feat = "module-include-from-namespace+reused-short-name"
+				fmt.Fprintf(&sb, "module %s\n  def helper\n    1\n  end\nend\n\nmodule App\n  class Host\n    include %s\n  end\nend\n\nh = App::Host.new\ndbtp h.helper\nh.zzext\n", name, name)
+			case 4:
+				feat = "module-extend-from-namespace+reused-short-name"
+				fmt.Fprintf(&sb, "module %s\n  def helper\n    \"s\"\n  end\nend\n\nmodule App\n  class Host\n    extend %s\n  end\nend\n\ndbtp App::Host.helper\n", name, name)
+			case 5:
+				// sibling classes of one namespace, the superclass named by its short name
+				feat = "namespaced-sibling-superclass+reused-short-name"
+				fmt.Fprintf(&sb, "module Zoo\n  class %s\n    def helper\n      \"s\"\n    end\n    def self.kinds\n      1\n    end\n  end\n  class Dog < %s\n  end\nend\n\nd = Zoo::Dog.new\ndbtp d.helper\ndbtp Zoo::Dog.kinds\nd.zzext\n", name, name)
 			case 0:
 				fmt.Fprintf(&sb, "module %s\n  def helper\n    1\n  end\nend\n\nclass Host\n  include %s\nend\n\nh = Host.new\ndbtp h.helper\nh.zzext\n", name, name)
 			case 1:
